@@ -62,34 +62,34 @@ theorem cput_lambda_growsL {h : CHeap} (inv : HInv h) (ci : CInvG V h) (cl : CLa
       · exact h1.elim
 
 /-- the value-typed code invariant survives a step, old code is kept -/
-theorem instStep_cinv {Q : CLambda → Prop} (hQ : ∀ cl, Q cl → CodeOk cl) {h h' : CHeap} (st : InstStep Q h h')
+theorem instStep_cinv {Q : CHeap → CLambda → Prop} (hQ : ∀ h cl, Q h cl → CodeOk cl) {h h' : CHeap} (st : InstStep Q h h')
     (inv : HInv h) (ci : CInvG IsValue h) :
     CInvG IsValue h' ∧ ∀ l bc, codeC h l = some bc → codeC h' l = some bc := by
   have fin : ∀ {h' : CHeap}, Grows NoCont h h' →
       CInvG IsValue h' ∧ ∀ l bc, codeC h l = some bc → codeC h' l = some bc :=
     fun g => ⟨g.inv ci (fun c hc => hc.elim), fun _ _ hc => g.code hc⟩
   cases st with
-  | cell hn _ _ =>
+  | cell hn _ _ _ =>
     rcases hn.notLambda with ⟨cl, rfl, q⟩ | ⟨hc, hcc⟩
     · refine (cput_lambda_growsL inv ci cl).inv ci ?_
       rintro lam rfl
-      exact ⟨(hQ _ q).ver, (hQ _ q).noIof, (hQ _ q).args⟩
+      exact ⟨(hQ _ _ q).ver, (hQ _ _ q).noIof, (hQ _ _ q).args⟩
     · exact fin (cput_grows ci hc hcc)
   | sym _ _ => exact fin (putNew_grows ci _)
   | glob _ => exact fin (Grows.of_eq ci rfl rfl rfl rfl)
   | resym _ _ => exact fin (Grows.of_eq ci rfl rfl rfl rfl)
 
-theorem instStep_codePlain {Q : CLambda → Prop} (hQ : ∀ cl, Q cl → CodeOk cl) {h h' : CHeap} (st : InstStep Q h h')
+theorem instStep_codePlain {Q : CHeap → CLambda → Prop} (hQ : ∀ h cl, Q h cl → CodeOk cl) {h h' : CHeap} (st : InstStep Q h h')
     (inv : HInv h) (cp : CodePlain h) : CodePlain h' := by
   have _ := inv
   cases st with
-  | cell hn _ _ =>
+  | cell hn _ _ _ =>
     rcases hn.notLambda with ⟨cl, rfl, q⟩ | ⟨hc, _⟩
     · intro i l x
       change (cwrite (calloc h).1 (calloc h).2 (.lambda cl)).cells[i]? = _ at x
       rw [cwrite_cells] at x
       split at x
-      · cases x; exact (hQ _ q).plain
+      · cases x; exact (hQ _ _ q).plain
       · exact cp i l (calloc_lamSub h i l x)
     · exact (cput_lamSub h hc).codePlain cp
   | sym _ _ => exact (putNew_lamSub h _).codePlain cp
@@ -97,9 +97,9 @@ theorem instStep_codePlain {Q : CLambda → Prop} (hQ : ∀ cl, Q cl → CodeOk 
   | resym _ _ => exact (LamSub.of_cells rfl).codePlain cp
 
 /-- at most one allocation, and the allocator invariant is kept -/
-theorem instStep_allocs {Q : CLambda → Prop} {h h' : CHeap} (st : InstStep Q h h') : AllocsLe h h' 1 := by
+theorem instStep_allocs {Q : CHeap → CLambda → Prop} {h h' : CHeap} (st : InstStep Q h h') : AllocsLe h h' 1 := by
   cases st with
-  | cell _ _ _ => exact cput_allocs h _
+  | cell _ _ _ _ => exact cput_allocs h _
   | sym _ _ => exact putNew_allocs h _
   | glob _ =>
     intro inv
@@ -108,17 +108,17 @@ theorem instStep_allocs {Q : CLambda → Prop} {h h' : CHeap} (st : InstStep Q h
     intro inv
     exact ⟨⟨inv.sizes, inv.shape, inv.free_iff, inv.nodup, inv.no_used⟩, 0, Nat.zero_le _, .of_proj rfl⟩
 
-theorem instStep_inv {Q : CLambda → Prop} {h h' : CHeap} (st : InstStep Q h h') (inv : HInv h) : HInv h' :=
+theorem instStep_inv {Q : CHeap → CLambda → Prop} {h h' : CHeap} (st : InstStep Q h h') (inv : HInv h) : HInv h' :=
   (instStep_allocs st inv).1
 
-theorem instSteps_allocs {Q : CLambda → Prop} {h h' : CHeap} (st : InstSteps Q h h') : ∃ k, AllocsLe h h' k := by
+theorem instSteps_allocs {Q : CHeap → CLambda → Prop} {h h' : CHeap} (st : InstSteps Q h h') : ∃ k, AllocsLe h h' k := by
   induction st with
   | refl h => exact ⟨0, .refl h⟩
   | step s _ ih =>
     obtain ⟨k, hk⟩ := ih
     exact ⟨1 + k, (instStep_allocs s).trans hk⟩
 
-theorem instSteps_inv {Q : CLambda → Prop} {h h' : CHeap} (st : InstSteps Q h h') (inv : HInv h) : HInv h' := by
+theorem instSteps_inv {Q : CHeap → CLambda → Prop} {h h' : CHeap} (st : InstSteps Q h h') (inv : HInv h) : HInv h' := by
   induction st with
   | refl _ => exact inv
   | step s _ ih => exact ih (instStep_inv s inv)
